@@ -119,6 +119,32 @@ Proof. unfold len. lia. Qed.
 Lemma len_length_lt {A} (l : list A) (n : nat) : (length l < n)%nat -> len l < Z.of_nat n.
 Proof. unfold len. lia. Qed.
 
+(* the look-behind of replaceEntities sees the same thing in the compacting buffer and in the compacted text *)
+Definition LB (D b : list Z) : Prop := forall d, look_behind (rev b) d = look_behind (rev D) d.
+
+Lemma look_behind_ext x : forall y y' d, (forall d', look_behind y d' = look_behind y' d') ->
+  look_behind (x ++ y) d = look_behind (x ++ y') d.
+Proof.
+  induction x as [|c t IH]; intros y y' d H; cbn [app look_behind]; [apply H|].
+  destruct ((c =? 38) || (33 <? d)); [reflexivity|]. destruct (is_alnum c || (c =? 35)); [apply IH; exact H|reflexivity].
+Qed.
+
+Lemma lb_refl D : LB D D.
+Proof. intros d. reflexivity. Qed.
+
+Lemma lb_app D b X : LB D b -> LB (D ++ X) (b ++ X).
+Proof. intros H d. rewrite !rev_app_distr. apply look_behind_ext. exact H. Qed.
+
+Lemma lb_ws x s y t : ws5 s = true -> ws5 t = true -> LB (y ++ [t]) (x ++ [s]).
+Proof.
+  intros Hs Ht d. rewrite !rev_app_distr. cbn [rev app look_behind].
+  unfold ws5 in Hs, Ht.
+  replace (s =? 38) with false by lia. replace (t =? 38) with false by lia. cbn [orb].
+  destruct (33 <? d); [reflexivity|].
+  replace (is_alnum s || (s =? 35)) with false by (unfold is_alnum, is_digit; lia).
+  replace (is_alnum t || (t =? 35)) with false by (unfold is_alnum, is_digit; lia). reflexivity.
+Qed.
+
 Section Sim.
   Variable em : list (list Z * list Z).
   Variable rm : list (Z * list Z).
@@ -128,16 +154,16 @@ Section Sim.
     exists b' j' k' o, K1 = Ok (b', j', k') /\ VInv o b' j' k' /\ K2 = Ok o.
 
   Definition SimIH (n : nat) : Prop :=
-    forall suf bpre j k D f1 f2, (length suf <= n)%nat -> VInv D bpre j k ->
+    forall suf bpre j k D f1 f2, (length suf <= n)%nat -> VInv D bpre j k -> LB D bpre ->
       (length suf < f1)%nat -> (length (collapse suf) < f2)%nat ->
       SimGoal (wsent_loop em rm f1 (bpre ++ suf) (len bpre) j k) (ent_loop em rm f2 (D ++ collapse suf) (len D)).
 
   Lemma sim_ent n rem bpre1 D1 j k f1 f2 : SimIH n ->
     (match rem with [] => True | d :: _ => ws5 d = false end) ->
-    VInv D1 bpre1 j k -> (length rem <= S n)%nat -> (length rem <= f1)%nat -> (length (collapse rem) < f2)%nat ->
+    VInv D1 bpre1 j k -> LB D1 bpre1 -> (length rem <= S n)%nat -> (length rem <= f1)%nat -> (length (collapse rem) < f2)%nat ->
     SimGoal (cont1 em rm f1 (bpre1 ++ rem) (len bpre1) j k) (ent_loop em rm f2 (D1 ++ collapse rem) (len D1)).
   Proof using Hok.
-    intros IH Hrem HV Hn Hf1 Hf2. pose proof (len_nonneg bpre1) as Hb0. pose proof (len_nonneg D1) as HD0.
+    intros IH Hrem HV HLB Hn Hf1 Hf2. pose proof (len_nonneg bpre1) as Hb0. pose proof (len_nonneg D1) as HD0.
     destruct rem as [|d rest].
     - unfold cont1. rewrite app_nil_r. replace (len bpre1 + 3 <? len bpre1) with false by lia. cbn [andb].
       rewrite wsent_loop_done by lia. change (collapse []) with (@nil Z). rewrite app_nil_r.
@@ -158,7 +184,7 @@ Section Sim.
         replace (len bpre1 + 1) with (len (bpre1 ++ [d])) by (rewrite len_app; reflexivity).
         replace (len D1 + 1) with (len (D1 ++ [d])) by (rewrite len_app; reflexivity).
         cbn [length] in Hn, Hf1. rewrite Hcd in Hf2. cbn [length] in Hf2.
-        apply IH; [lia|apply vinv_app; exact HV|lia|lia]. }
+        apply IH; [lia|apply vinv_app; exact HV|apply lb_app; exact HLB|lia|lia]. }
       destruct (d =? 38) eqn:E38.
       2:{ apply Skip; rewrite ?Hcd, !getz_app_len, E38; [apply andb_false_r|reflexivity]. }
       destruct (split_wsfree (d :: rest)) as (u & w & Hsplit & Hu & Hw).
@@ -177,9 +203,11 @@ Section Sim.
       rewrite Hcu in Hf2'. rewrite len_app in Hf2'.
       destruct (3 <? len u + len (collapse w)) eqn:Ca.
       + (* both loops call replaceEntities, which takes the same decision *)
-        pose proof (replace_at_next em rm u w Hok Sw Hu1 ltac:(lia)) as N1.
-        pose proof (replace_at_next em rm u (collapse w) Hok Sw2 Hu1 ltac:(lia)) as N2.
-        destruct (emitted u (decide em rm u)) as [X m]. destruct N1 as (Hm & _ & N1). destruct N2 as (_ & _ & N2).
+        set (lb := look_behind (rev bpre1) 1).
+        pose proof (replace_at_next em rm lb u w Hok Sw Hu1 ltac:(lia)) as N1.
+        pose proof (replace_at_next em rm lb u (collapse w) Hok Sw2 Hu1 ltac:(lia)) as N2.
+        destruct (emitted u (decide em rm lb u)) as [X m]. destruct N1 as (Hm & _ & N1). destruct N2 as (_ & _ & N2).
+        specialize (N1 bpre1 eq_refl). specialize (N2 D1 (eq_sym (HLB 1))).
         unfold cont1. rewrite getz_app_len, E38.
         replace (len bpre1 + 3 <? len (bpre1 ++ d :: rest)) with true by (rewrite len_app, Hlen; lia).
         cbn [andb]. rewrite Hcu, Hsplit, N1. cbn [rbind].
@@ -192,16 +220,17 @@ Section Sim.
         replace (len (D1 ++ X) - 1 + 1) with (len (D1 ++ X)) by lia.
         rewrite <- (collapse_wsfree_app (skipz m u) w) by (apply wsfree_skipz; exact Hu).
         assert (Hls : len (skipz m u ++ w) = len u - m + len w) by (rewrite len_app, len_skipz by lia; lia).
-        apply IH; [apply length_len_le; lia|apply vinv_app; exact HV|apply length_len_lt; lia|].
+        apply IH; [apply length_len_le; lia|apply vinv_app; exact HV|apply lb_app; exact HLB|apply length_len_lt; lia|].
         apply length_len_lt. rewrite collapse_wsfree_app by (apply wsfree_skipz; exact Hu).
         rewrite len_app, len_skipz by lia. lia.
       + destruct (3 <? len u + len w) eqn:Cb.
         * (* only the combined loop calls replaceEntities; with at most two bytes before the whitespace it keeps them *)
-          pose proof (replace_at_next em rm u w Hok Sw Hu1 ltac:(lia)) as N1.
-          pose proof (decide_range em rm u Hu1) as R.
+          set (lb := look_behind (rev bpre1) 1).
+          pose proof (replace_at_next em rm lb u w Hok Sw Hu1 ltac:(lia)) as N1.
+          pose proof (decide_range em rm lb u Hu1) as R.
           assert (Hw1 : 1 <= len (collapse w)) by (apply Hne; intros ->; change (collapse []) with (@nil Z) in *; lia).
-          destruct (decide em rm u) as [dd|off r] eqn:Hdec; [|lia].
-          cbn [emitted] in N1. destruct N1 as (Hm & Hk & N1). specialize (Hk dd eq_refl).
+          destruct (decide em rm lb u) as [dd|off r] eqn:Hdec; [|lia].
+          cbn [emitted] in N1. destruct N1 as (Hm & Hk & N1). specialize (Hk dd eq_refl). specialize (N1 bpre1 eq_refl).
           set (X := firstz (dd + 1) u) in *. set (m := dd + 1) in *.
           unfold cont1. rewrite getz_app_len, E38.
           replace (len bpre1 + 3 <? len (bpre1 ++ d :: rest)) with true by (rewrite len_app, Hlen; lia).
@@ -211,7 +240,7 @@ Section Sim.
           assert (Hcs : collapse (skipz m u ++ w) = skipz m u ++ collapse w)
             by (apply collapse_wsfree_app; apply wsfree_skipz; exact Hu).
           destruct (IH (skipz m u ++ w) (bpre1 ++ X) j k (D1 ++ X) f1 f2) as (b' & j' & k' & o & E1 & HV' & E2);
-            [apply length_len_le; lia|apply vinv_app; exact HV|apply length_len_lt; lia
+            [apply length_len_le; lia|apply vinv_app; exact HV|apply lb_app; exact HLB|apply length_len_lt; lia
             |apply length_len_lt; rewrite Hcs, len_app, len_skipz by lia; lia|].
           exists b', j', k', o. split; [exact E1|]. split; [exact HV'|].
           rewrite Hcs in E2.
@@ -237,7 +266,7 @@ Section Sim2.
 
   Lemma sim : forall n, SimIH em rm n.
   Proof using Hok.
-    induction n as [|n IHn]; intros suf bpre j k D f1 f2 Hn HV Hf1 Hf2.
+    induction n as [|n IHn]; intros suf bpre j k D f1 f2 Hn HV HLB Hf1 Hf2.
     - destruct suf; [|cbn [length] in Hn; lia]. rewrite !app_nil_r. change (collapse []) with (@nil Z). rewrite ?app_nil_r.
       rewrite wsent_loop_done by lia. rewrite ent_loop_end by lia. exists bpre, j, k, D. repeat split. exact HV.
     - destruct suf as [|c t].
@@ -248,7 +277,7 @@ Section Sim2.
         rewrite wsent_loop_step by (rewrite len_app, len_cons; lia).
         destruct (ws5 c) eqn:Ec.
         * destruct (ws_run_split t false) as (r & t' & -> & Hr & Ht & _).
-          destruct (vinv_step_run D bpre j k c r t' HV Ec Hr Ht) as (bpre1 & i1 & j' & k' & E & -> & Hlen & HV1).
+          destruct (vinv_step_run D bpre j k c r t' HV Ec Hr Ht) as (bpre1 & i1 & j' & k' & E & -> & Hlen & HV1 & (x1 & s1 & Ex1 & Hs1)).
           rewrite E. cbn [rbind].
           rewrite (collapse_run_then c r t' Ec Hr Ht) in *.
           set (mk := run_mark (c :: r)) in *.
@@ -259,9 +288,10 @@ Section Sim2.
           replace (D ++ mk :: collapse t') with ((D ++ [mk]) ++ collapse t') by (rewrite <- app_assoc; reflexivity).
           replace (len D + 1) with (len (D ++ [mk])) by (rewrite len_app; reflexivity).
           rewrite app_length in Hn, Hf1.
-          apply (sim_ent em rm Hok n); [exact IHn|exact Ht|exact HV1|lia|lia|lia].
+          apply (sim_ent em rm Hok n); [exact IHn|exact Ht|exact HV1| |lia|lia|lia].
+          rewrite Ex1. apply lb_ws; [exact Hs1|]. unfold mk, run_mark. destruct (existsb nl2 (c :: r)); reflexivity.
         * rewrite ws_body_text by exact Ec. cbn [rbind].
-          apply (sim_ent em rm Hok n); [exact IHn|exact Ec|exact HV|cbn [length]; lia|cbn [length]; lia|exact Hf2].
+          apply (sim_ent em rm Hok n); [exact IHn|exact Ec|exact HV|exact HLB|cbn [length]; lia|cbn [length]; lia|exact Hf2].
   Qed.
 
   Lemma compose_proof b :
@@ -271,6 +301,7 @@ Section Sim2.
     destruct (sim (length b) b [] 0 0 [] (S (length b)) (S (length (collapse b)))) as (b' & j' & k' & o & E1 & HV & E2).
     - lia.
     - left. repeat split.
+    - apply lb_refl.
     - lia.
     - lia.
     - exists o. unfold replace_ws_and_entities. cbn [app] in E1. change (len (@nil Z)) with 0 in E1.
